@@ -36,6 +36,8 @@ func main() {
 		os.Exit(cmdSurveyEval(os.Args[2:]))
 	case "compose":
 		os.Exit(cmdCompose(os.Args[2:]))
+	case "axis":
+		os.Exit(cmdAxis(os.Args[2:]))
 	case "show":
 		os.Exit(cmdShow(os.Args[2:]))
 	case "list":
